@@ -715,7 +715,7 @@ theorem decRunners_lengths (nodes : List NodeId) :
               simp only [h1, h2, Except.ok.injEq, Prod.mk.injEq] at h
               obtain ⟨rfl, rfl, rfl⟩ := h
               obtain ⟨g1, g2, g3⟩ := ih ps cs ns ps' cs' h2
-              simp [g1, g2]
+              simp [g1]
               omega
 
 /-- runner-up lists as `hdf5_to_blob` builds them: all three present with
